@@ -20,10 +20,10 @@
     D10  `InvokeTimeout` answers with version 0 and packet type 0, and the transport handler takes the
          packet type from a context `Invoke` has not written yet: a TUP request that runs into the
          handle timeout is answered in the wrong encoding, a ONE-WAY request that runs into it IS
-         answered.  Repair: pending/C10-invoke-timeout-identity.patch.
+         answered.  Repaired in /repo by commit 17261bf (pending/C10-invoke-timeout-identity.patch).
     D22  `req2Byte` (the TUP answer, a `RequestPacket`) drops `IRet`/`SResultDesc`: every error answer
          to a TUP request (implementation error, queue timeout, handle timeout) looks like a success
-         with an empty payload.  Repair: pending/C10-tup-result-status.patch.
+         with an empty payload.  Repaired in /repo by commit a260ec1 (pending/C10-tup-result-status.patch).
   `Variant` carries one flag per repaired function; `C10_full` is proved for the repaired variant and
   refuted for the as-found one; each `…_asFound_partial` theorem says what the as-found code does
   guarantee; the counterexamples are concrete requests evaluated on the model.
@@ -37,7 +37,7 @@ def TwoWay (req : RequestPacket) : Prop := req.cPacketType = TARSNORMAL
 def OneWay (req : RequestPacket) : Prop := req.cPacketType = TARSONEWAY
 def WellFormed (req : RequestPacket) : Prop := TwoWay req ∨ OneWay req
 
-/-- both parts of pending/C10-invoke-timeout-identity.patch are in place -/
+/-- both parts of the D10 repair (commit 17261bf, pending/C10-invoke-timeout-identity.patch) are in place -/
 def Variant.D10Fixed (v : Variant) : Prop := v.timeoutIdentity = true ∧ v.skipEmpty = true
 
 /-- `Invoke`'s answer is the one that is sent: no handle timeout, or the dispatcher is faster -/
@@ -206,7 +206,7 @@ example : Dispatched { RequestPacket.zero with sFuncName := "err:77:boom", iTime
 example : (Disp.run ⟨genErr (.tars 77 "boom"), 0⟩ { RequestPacket.zero with iVersion := 1 } (preset { RequestPacket.zero with iVersion := 1 })).err
     = some (.tars 77 "boom") := rfl
 
-/-- **C10_error_tup.** TUP with the status rewrite of pending/C10-tup-result-status.patch: the answer
+/-- **C10_error_tup.** TUP with the status rewrite of the D22 repair (commit a260ec1): the answer
     is a `RequestPacket` whose status map carries the code (≠ 0) and the message. -/
 theorem C10_error_tup (v : Variant) (hv : v.tupStatus = true) (cfg : Config) (req : RequestPacket) (sub : Int) (d : Disp)
     (hd : Dispatched req sub) (ht : InTime cfg d) (e : Err) (he : (d.run req (preset req)).err = some e)
@@ -405,6 +405,46 @@ theorem C10_pipeline (v : Variant) (hv : v.D10Fixed) (cfg : Config) (js : List J
 
 example : WellFormed { RequestPacket.zero with cPacketType := 1 } := Or.inr rfl
 
+/-! ## the payload of a TUP answer built by the emitted dispatcher -/
+
+/-- **C10_generated_tup_attrs.** With `buf.Reset()` before every out parameter the TUP answer holds
+    exactly: the return value under "" and "tars_ret" (if the function has one) and one attribute per
+    out parameter whose value is exactly that parameter's encoding — for every number of out
+    parameters, every encoding, with and without return value. -/
+theorem C10_generated_tup_attrs (ret : Option (List Nat)) (outs : List (String × List Nat)) :
+    tupRspAttrs true true ret outs = tupRspSpec ret outs := by
+  have loop : ∀ (outs : List (String × List Nat)) (buf : List Nat) (first : Bool),
+      tupOutLoop true true buf first outs = outs := by
+    intro outs
+    induction outs with
+    | nil => intros; rfl
+    | cons e rest ih =>
+      intro buf first
+      obtain ⟨n, enc⟩ := e
+      cases first <;> simp [tupOutLoop, ih]
+  cases ret with
+  | none => simp [tupRspAttrs, tupRspSpec, loop]
+  | some r => simp [tupRspAttrs, tupRspSpec, loop]
+
+/-- the emitted code of the current tree clears the buffer before every out parameter (re-read from
+    gen_go.go on every run), hence builds exactly the specified attribute set -/
+theorem C10_generated_tup_tree (ret : Option (List Nat)) (outs : List (String × List Nat)) :
+    genTupRspAttrs ret outs = tupRspSpec ret outs := by
+  have h1 : Consts.srvGenTupResetFirstOut = 1 := by decide
+  have h2 : Consts.srvGenTupResetLaterOut = 1 := by decide
+  have h : genTupRspAttrs = tupRspAttrs true true := by
+    simp only [genTupRspAttrs, h1, h2, decide_true]
+  rw [h]; exact C10_generated_tup_attrs ret outs
+
+/-- without the `buf.Reset()` before the FIRST out parameter (it is redundant only for a void
+    function) the first out attribute of a function with a return value starts with the return
+    value's bytes: return value `[0x00, 0x07]`, out parameter `x` encoded `[0x0c]` -/
+theorem C10_counterexample_generated_tup_first_reset :
+    tupRspAttrs false true (some [0, 7]) [("x", [12]), ("y", [1, 2])] =
+      [("", [0, 7]), ("tars_ret", [0, 7]), ("x", [0, 7, 12]), ("y", [1, 2])] ∧
+    tupRspAttrs false true none [("x", [12])] = tupRspSpec none [("x", [12])] := by
+  decide
+
 /-! ## the property at full strength -/
 
 /-- C10 for one variant of the code: for every configuration, well-formed request, queueing delay,
@@ -423,7 +463,7 @@ def C10_full (v : Variant) : Prop :=
     (OneWay req → o.sent = []) ∧
     (o.invoked = true ↔ Dispatched req sub)
 
-/-- **C10_full_repaired.** The property holds for the code with both pending patches. -/
+/-- **C10_full_repaired.** The property holds for the code with both repairs (the current tree: commits 17261bf, a260ec1). -/
 theorem C10_full_repaired : C10_full .repaired := by
   intro cfg req sub d o _ he ho
   have hv : Variant.repaired.D10Fixed := ⟨rfl, rfl⟩
